@@ -1,5 +1,5 @@
 """C06 Results do not depend on how the same conductor structure is described."""
-import itertools
+import itertools, math
 import numpy as np
 from mcx import geom, obs
 
@@ -28,10 +28,13 @@ def structure(P, es, nseg, rad):
 
 
 def cases(tier, seed):
+    yield from extras(tier, seed)
     D = 3 if tier == 'quick' else 4
-    for ground in (False, True):
-        P, f, lam = geom.lattice(seed, ground=ground)
+    for ground, special in ((False, False), (True, False), (False, True), (True, True)):
+        P, f, lam = geom.lattice(seed, ground=ground, special=special)
         pts = [list(map(float, p)) for p in P]
+        if special:
+            D = 2 if tier == 'quick' else 3
         variants = [((3, 2, 3, 2), (3e-5, 2e-4, 3e-5, 2e-4)), (0.05, (2e-4, 3e-5, 2e-4, 3e-5))]
         if tier == 'thorough':
             variants.append(((2, 4, 3, 2), (2e-4, 2e-4, 3e-5, 3e-5)))
@@ -43,6 +46,135 @@ def cases(tier, seed):
                     nseg = [geom.auto_nseg(np.linalg.norm(P[a] - P[b]), nseg * lam) for a, b in es]
                 st = [dict(a=a, b=b, n=nseg[i], r=rad[i] * lam) for i, (a, b) in enumerate(es)]
                 yield dict(env='ideal' if ground else 'free', f=f, lam=lam, pts=pts, st=st)
+
+
+def extras(tier, seed):
+    """structures with objects whose end segments differ (tapered wires, arcs, helices): the junction
+    pulse then depends on WHICH end segment of the earlier object is taken"""
+    rot, sc, f = geom.variant(seed)
+    lam = geom.C_MININEC / f
+    r = 2e-4 * lam
+    A, B, C = np.array([0., 0., 0.]), np.array([0.16, 0.02, 0.03]) * lam, np.array([0.19, 0.13, 0.08]) * lam
+    Rg = geom.rotmat(rot)
+    A, B, C = Rg @ A, Rg @ B, Rg @ C
+    # --- tapered wire AB (6 segments) + uniform BC / uniform CA (junction at either end of the taper)
+    # the junction at the FINE end of a taper (segment ratio ~60:1) is a known finding: it is evaluated only
+    # on one fixed, seed-independent geometry per taper type; the seed-dependent enumeration keeps to junctions
+    # at the coarse end
+    f0 = 30.0
+    lam0 = geom.C_MININEC / f0
+    R0 = geom.rotmat((17., -33., 71.))
+    A0, B0, C0 = R0 @ (np.array([0., 0., 0.])), R0 @ (np.array([0.16, 0.02, 0.03]) * lam0), R0 @ (np.array([0.19, 0.13, 0.08]) * lam0)
+    for ttype in (1, 2, 3):
+        fine = {1: 'end1', 2: 'end2', 3: None}[ttype]
+        for jend, (p, q) in (('end2', (B, C)), ('end1', (A, A + (C - B)))):
+            fixed = (jend == fine) or (ttype == 3 and jend == 'end1')
+            if ttype == 3 and jend == 'end2':
+                continue     # both ends fine: covered by the fixed end1 case
+            if fixed:
+                (A, B, C, f, lam, r), keep = (A0, B0, C0, f0, lam0, 2e-4 * lam0), (A, B, C, f, lam, r)
+                p, q = ((B, C) if jend == 'end2' else (A, A + (C - B)))
+            descs = []
+            for first in (0, 1):
+                for fa in (0, 1):
+                    for fb in (0, 1):
+                        tt = ttype if not fa else {1: 2, 2: 1, 3: 3}[ttype]
+                        wa = geom.wire(B, A, 6, r, taper=[tt]) if fa else geom.wire(A, B, 6, r, taper=[tt])
+                        wb = geom.wire(q, p, 3, r) if fb else geom.wire(p, q, 3, r)
+                        descs.append([wa, wb] if first == 0 else [wb, wa])
+            src = [dict(at=list(p + (q - p) / 3), dir=list(q - p), v=[1.0, 0.0])]
+            yield dict(extra='taper%d-%s%s' % (ttype, jend, '-fine-fixed' if fixed else ''), env='free', f=f, lam=lam,
+                       descs=descs, srcs=src, loads=[])
+            if fixed:
+                A, B, C, f, lam, r = keep
+    # --- arc (in its own x-z plane, centre at the origin) + straight tail at either arc end
+    R = 0.06 * lam
+    for (a1, a2) in ((0., 120.), (30., -100.)):
+        for jend in (0, 1):
+            aj = math.radians(a2 if jend else a1)
+            X = np.array([R * math.cos(aj), 0., R * math.sin(aj)])
+            T = X + np.array([0.03, 0.08, 0.02]) * lam * (1 if jend else -1)
+            descs = []
+            for first in (0, 1):
+                for fa in (0, 1):
+                    for fb in (0, 1):
+                        arc = dict(kind='arc', n=5, radius=R, ang1=a2 if fa else a1, ang2=a1 if fa else a2, r=r)
+                        wb = geom.wire(T, X, 3, r) if fb else geom.wire(X, T, 3, r)
+                        descs.append([arc, wb] if first == 0 else [wb, arc])
+            src = [dict(at=list(X + (T - X) / 3), dir=list(T - X), v=[1.0, 0.0])]
+            yield dict(extra='arc%g-%g-end%d' % (a1, a2, jend + 1), env='free', f=f, lam=lam, descs=descs, srcs=src, loads=[])
+    # arc standing on the ground plane with its first end, tail from the top
+    X = np.array([0., 0., R])
+    T = X + np.array([-0.08, 0.03, 0.01]) * lam
+    descs = []
+    for first in (0, 1):
+        for fa in (0, 1):
+            for fb in (0, 1):
+                arc = dict(kind='arc', n=5, radius=R, ang1=90. if fa else 0., ang2=0. if fa else 90., r=r)
+                wb = geom.wire(T, X, 3, r) if fb else geom.wire(X, T, 3, r)
+                descs.append([arc, wb] if first == 0 else [wb, arc])
+    yield dict(extra='arc-ground', env='ideal', f=f, lam=lam, descs=descs,
+               srcs=[dict(at=list(X + (T - X) / 3), dir=list(T - X), v=[1.0, 0.0])], loads=[])
+    # --- helix (axis z, radius-tapered) + tail at top / bottom; free space and standing on the ground
+    hl, tl, rx1, rx2 = 0.09 * lam, 0.06 * lam, 0.02 * lam, 0.012 * lam
+    for hand in (1, -1):
+        hx = dict(kind='helix', n=9, length=hl, turnlen=hand * tl, r=r, radii=[rx1, rx1, rx2, rx2])
+        ang = hand * (hl % tl) / tl * 2 * math.pi
+        top = np.array([rx2 * math.cos(ang), rx2 * math.sin(ang), hl])
+        bot = np.array([rx1, 0., 0.])
+        for env, jn, X, T in (('free', 'top', top, top + np.array([0.05, 0.02, 0.06]) * lam),
+                              ('free', 'bottom', bot, bot + np.array([0.06, -0.03, -0.05]) * lam),
+                              ('ideal', 'top', top, top + np.array([0.05, 0.02, 0.06]) * lam)):
+            descs = []
+            for first in (0, 1):
+                for fb in (0, 1):
+                    wb = geom.wire(T, X, 3, r) if fb else geom.wire(X, T, 3, r)
+                    descs.append([hx, wb] if first == 0 else [wb, hx])
+            yield dict(extra='helix%+d-%s-%s' % (hand, jn, env), env=env, f=f, lam=lam, descs=descs,
+                       srcs=[dict(at=list(X + (T - X) / 3), dir=list(T - X), v=[1.0, 0.0])], loads=[])
+
+
+def eval_extra(c):
+    ground = c['env'] != 'free'
+    zen = ZEN_G if ground else ZEN_F
+    obsv, conds = [], None
+    viol, worst, wd = [], 0.0, None
+    tol = None
+    nfp = None
+    for i, ws in enumerate(c['descs']):
+        cs = dict(f=c['f'], env=c['env'], wires=ws, sources=c['srcs'], loads=c['loads'])
+        try:
+            m = obs.solve(geom.build(cs))
+        except ValueError as e:
+            viol.append(('REJECTED', 'description %d rejected: %s' % (i, e)))
+            continue
+        if nfp is None:
+            for p in m.pulses:
+                if p.geo[0] is not p.geo[1]:
+                    u = np.array(p.ends[0], float) - np.array(p.point, float)
+                    v = np.array(p.ends[1], float) - np.array(p.point, float)
+                    ang = math.degrees(math.acos(max(-1., min(1., u @ v / np.linalg.norm(u) / np.linalg.norm(v)))))
+                    if ang < 42:
+                        return dict(viol=[], skipped='extra-junction-angle<42', evals=1)
+            ends = np.array([[s.p1, s.p2] for g in m.geo for s in g.segments]).reshape(-1, 3)
+            cen, ext = ends.mean(axis=0), np.ptp(ends, axis=0).max()
+            nfp = [list(cen + np.array(d) * ext) for d in ([1.3, 0.9, 1.4], [-1.6, 1.1, 0.8], [0.4, -1.9, 1.0])]
+            tol, cond = geom.cond_tol(m)
+            if tol is None:
+                return dict(viol=[], skipped='cond>1e5', evals=1)
+        o = obs.observe(m, zen, AZI, nfp)
+        if not obsv:
+            obsv.append(o)
+            continue
+        dv = obs.compare(obsv[0], o)
+        for k, x in dv.items():
+            if x / tol > worst:
+                worst, wd = x / tol, (k, i)
+            if not (x <= tol):
+                viol.append(('DEV-%s-extra' % k, '%s deviates %.3g > %.3g between description 0 and %d of %s (cond %.0f)' % (k, x, tol, i, c['extra'], cond)))
+    n = len(c['descs'])
+    return dict(viol=viol[:6], canon='extra|' + c['extra'], nontriv=True, trans=n, traces=n - 1, evals=n, dev=worst * (tol or 0),
+                outcome='extra', note=dict(worst=wd))
 
 
 def rep_case(c, order=None, flips=None, tags=None, split=None):
@@ -137,6 +269,8 @@ def descriptions(c):
 
 
 def evaluate(c):
+    if 'extra' in c:
+        return eval_extra(c)
     ground = c['env'] != 'free'
     rep = rep_case(c)
     reason = geom.domain(rep, c['lam'], ground=ground)
